@@ -4,10 +4,10 @@
 LOG="${1:-/tmp/seedreg.log}"; : > "$LOG"
 cd "$(dirname $0)/.."
 for d in seeded/C??; do
-    id=$(basename $d)
-    for sub in "$d" "$d/round2" "$d/round3" "$d/round4" "$d/round5" "$d/round7"; do
+    for sub in "$d" "$d/round2" "$d/round3" "$d/round4" "$d/round5" "$d/round7" "$d/round8" "$d/round9"; do
         for p in patch.diff patch2.diff; do
             [ -f "$sub/$p" ] || continue
+            id=$(basename $d)
             extra=""
             case "$sub/$p" in
                 seeded/C16/patch.diff) extra="C15";;
@@ -25,6 +25,12 @@ for d in seeded/C??; do
                 seeded/C06/round5/patch2.diff) extra="C13";;
                 seeded/C06/patch.diff) extra="C19";;
                 seeded/C19/round5/patch.diff|seeded/C06/round2/patch2.diff) continue;;  # superseded by fix V
+            esac
+            case "$sub" in
+                */round8|*/round9)
+                    m=$sub/meta.json; [ "$p" = patch2.diff ] && m=$sub/meta2.json
+                    det=$(python3 -c "import json; d=json.load(open('$m')).get('confirmed_by_builder',{}).get('detected_by',[]); print(' '.join(d[:2]))" 2>/dev/null)
+                    [ -n "$det" ] && { id="$det"; extra=""; } ;;
             esac
             res=$(tools/mutlab.sh patch "$(pwd)/$sub/$p" $id $extra 2>&1 | grep -E "^==|PATCH DOES NOT" | cut -c1-260 | tr '\n' ' ')
             echo "$sub/$p $res" >> "$LOG"
